@@ -41,8 +41,17 @@ def parseSItem (w : String) : Option (Option SItem) :=
         else b.toInt?.map (fun e => some (.range s (some e)))
     | _ => none
 
-/-- The `r:` probe: `try_slice` / `try_slice_mut`. -/
-def sliceProbe (ovf : Bool) (dn : List (Nat × Nat)) (storageLen : Nat) (arg : String) : String :=
+def toMR : RItem → M.RItem
+  | .pick p => .pick p.toUInt64
+  | .span s e => .span s.toUInt64 e.toUInt64
+  | .keep => .keep
+
+/-- The `r:` probe: `try_slice` / `try_slice_mut`.  Items are resolved on ideal integers
+(`SliceRange::resolve` works on `isize`; with `|index| ≤ 2^63` and `dim_size < 2^63` its
+positive-step arithmetic cannot overflow), then `slice_layout`'s fast path, the range end and
+the range assertion are evaluated on `UInt64` (`M.trySliceR`, the subject of `c06_T3_slice`). -/
+def sliceProbe (ovf : Bool) (dims : List (U × U)) (storageLen : Nat) (arg : String) : String :=
+  let dn := M.toN dims
   let ws := if arg == "-" then [] else arg.splitOn "/"
   match ws.mapM parseSItem with
   | none => "bad-probe"
@@ -50,20 +59,20 @@ def sliceProbe (ovf : Bool) (dn : List (Nat × Nat)) (storageLen : Nat) (arg : S
     match its.mapM id with
     | none => "err"
     | some items =>
-      -- overflow-checks builds: `offset += stride * start` traps when the running sum passes
-      -- 2^64 (only possible for empty results, whose offset a release build resets to 0)
-      let trapped := ovf && (match resolveItems true dn items with
-        | some rs => decide ((sliceLoopR dn rs).1 ≥ wordSize)
-        | none => false)
-      if trapped then "panic" else
-      match trySlice true dn storageLen items with
-      | .error e => e.toString
-      | .ok v =>
-        s!"V{v.start}+{v.stop - v.start}[{showList (shapeOf v.dims)}]st[{showList (v.dims.map (fun d => d.2))}]len={len v.dims}"
+      match resolveItems true dn items with
+      | none => "err"
+      | some rs =>
+        -- overflow-checks builds: `offset += stride * start` traps when the running sum passes
+        -- 2^64 (only possible for empty results, whose offset a release build resets to 0)
+        if ovf && decide ((sliceLoopR dn rs).1 ≥ wordSize) then "panic" else
+        match M.trySliceR dims storageLen.toUInt64 (rs.map toMR) with
+        | none => "panic"
+        | some v =>
+          s!"V{v.start.toNat}+{v.storageLen.toNat}[{showList (v.dims.map (fun d => d.1.toNat))}]st[{showList (v.dims.map (fun d => d.2.toNat))}]len={(M.len v.dims).toNat}"
 
 /-- One probe on an accepted tensor `dims` (machine values) with `storageLen` elements. -/
 def probe (ovf nd : Bool) (dims : List (U × U)) (storageLen : Nat) (p : String) : String :=
-  if p.startsWith "r:" then sliceProbe ovf (M.toN dims) storageLen (p.drop 2).toString else
+  if p.startsWith "r:" then sliceProbe ovf dims storageLen (p.drop 2).toString else
   let (kind, arg) :=
     match p.splitOn ":" with
     | [k, a] => (k, a)
